@@ -254,7 +254,7 @@ def gen_inputs(universe, thorough, seed):
         for dl in [[], [{}], [{"low": 5, "hi": 1}], [{"low": 1, "hi": 2}] * 2000, [{"low": -5}], [{"hi": 7}]]:
             add(st, "mut", BASES["del"][0], "del.delseq:shape", [{"path": ["del", "delseq"], "val": dl}], dem="reply")
         for what in ["msg", "topic", "sub", "user", "cred", "", "MSG", "msg topic"]:
-            for extra in [[], [{"path": ["del", "user"], "val": "usrZZ"}], [{"path": ["del", "user"], "val": "$CAROL"}], [{"path": ["del", "cred"], "val": {"meth": "verifv", "val": "x@example.com"}}],
+            for extra in [[], [{"path": ["del", "user"], "val": "usrZZ"}], [{"path": ["del", "user"], "val": "$BOB"}], [{"path": ["del", "cred"], "val": {"meth": "verifv", "val": "x@example.com"}}],
                           [{"path": ["del", "cred"], "val": {"meth": "", "val": ""}}], [{"path": ["del", "topic"], "val": "$DELETE"}]]:
                 if what == "user" and not any(x["path"] == ["del", "user"] for x in extra):
                     continue   # {del user} without a user id deletes the session's own account: exercised by the last inputs of the run
@@ -330,6 +330,8 @@ def gen_inputs(universe, thorough, seed):
                 fld = rng.choice(sorted(FIELDS[kind]))
                 path, ty = [kind, fld], FIELDS[kind][fld]
             val = rng.choice(pool)
+            if path == ["del", "user"] and val == "$CAROL":
+                val = "$BOB"   # a root session must not delete carol: the model's inputs of the same session state act on her
             muts.append({"path": path, "val": val})
             final[tuple(path)] = (val, ty)     # a later mutation of the same field wins
         wrong = False
@@ -351,6 +353,44 @@ def gen_inputs(universe, thorough, seed):
             add(st, "mut", base, "random:%s:wrongtype" % kind, muts, dem="err", stage="pre")
         else:
             add(st, "mut", base, "random:%s" % kind, muts, dem="none" if (kind == "note" or wrong is None) else "reply", stage="any")
+    # (a4) credential methods x configurations: the e-mail and tel validators are compiled in (registered) but not configured
+    # (not initialised) in any of these configurations; "verifv" is configured in the configurations with validators
+    meths = ["email", "tel", "verifv", "nosuch", ""]
+    well = {"email": "a@example.com", "tel": "+14155550100", "verifv": "v@example.com", "nosuch": "x", "": "x"}
+    badvals = ["", "zz", "@", "+", "$HUGE", "\u0000", "a@b@c", "+0"]
+    resps = ["$DELETE", "123456", "000000", ""]
+    selfacc = M("acc", usr="self", lg="F", sch="none", tmp="none", st="F")
+    for st in ["auth", "authatt", "rootatt"]:
+        for meth in meths:
+            vals = [well[meth]] + (badvals if thorough else rng.sample(badvals, 3))
+            for val in vals:
+                for resp in (resps if thorough or val == well[meth] else rng.sample(resps, 2)):
+                    cred = {"meth": meth, "val": val}
+                    if resp != "$DELETE":
+                        cred["resp"] = resp
+                    add(st, "mut", BASES["set"][0], "cred:set-me/%s" % (meth or "empty"), [{"path": ["set", "desc"], "val": "$DELETE"}, {"path": ["set", "topic"], "val": "me"},
+                                                                                        {"path": ["set", "cred"], "val": cred}], dem="reply")
+                add(st, "mut", BASES["del"][0], "cred:del-me/%s" % (meth or "empty"), [{"path": ["del", "delseq"], "val": "$DELETE"}, {"path": ["del", "topic"], "val": "me"},
+                    {"path": ["del", "what"], "val": "cred"}, {"path": ["del", "cred"], "val": {"meth": meth, "val": val}}], dem="reply")
+                for usr in (["$SELF", "$DELETE"] if thorough else ["$SELF"]):
+                    add(st, "mut", selfacc, "cred:acc-self/%s" % (meth or "empty"), [{"path": ["acc", "user"], "val": usr},
+                        {"path": ["acc", "cred"], "val": [{"meth": meth, "val": val}]}], dem="reply")
+    for st in ["hi", "auth"]:
+        for meth in meths:
+            for val in [well[meth], rng.choice(badvals)]:
+                add(st, "mut", BASES["acc"][0], "cred:acc-new/%s" % (meth or "empty"), [{"path": ["acc", "cred"], "val": [{"meth": meth, "val": val}, {"meth": "verifv", "val": "n%d@example.com" % len(inputs)}]}], dem="reply")
+    for meth in meths:
+        for resp in ["123456", "000000", "", "$HUGE"]:
+            for extra in [{}, {"val": well[meth]}]:
+                cr = dict({"meth": meth, "resp": resp}, **extra)
+                for sec in ["right", "needscred"]:
+                    add("hi", "mut", M("login", sch="basic", sec=sec), "cred:login/%s" % (meth or "empty"), [{"path": ["login", "cred"], "val": [cr]}], dem="reply")
+    # (a5) replies under interleaving keep their own id: A's {sub} parked inside topicInit, B's request for the same topic
+    for cse in ["nogrp", "softdel", "p2pmissing", "load"]:
+        for bk in ["sub", "leave", "pub", "getdesc", "setdesc", "deltopic", "delmsg", "note", "all"]:
+            for _ in range(3 if thorough else 1):
+                inputs.append({"i": len(inputs) + 1, "st": "race", "src": "race", "m": dict(BLANK), "mut": [], "raw": "", "dem": "", "stage": "", "cls": "race:%s/%s" % (cse, bk),
+                               "race": {"case": cse, "b": bk}})
     # (b) byte strings
     for lbl, b, dem in raw_inputs(rng, 3000 if thorough else 120):
         for st in (["fresh", "auth", "rootatt"] if thorough else ["fresh", "auth"]):
@@ -362,11 +402,11 @@ def gen_inputs(universe, thorough, seed):
             add(st, "drafty", BASES["pub"][0], "drafty:" + lbl.split("-")[0],
                 [{"path": ["pub", "topic"], "val": tp}, {"path": ["pub", "content"], "val": c}, {"path": ["pub", "head"], "val": {"mime": "text/x-drafty"}}], dem="reply")
     # seeded shuffle inside each state ("in any order"), keeping the states contiguous
-    by = collections.OrderedDict((s, []) for s in STATES)
+    by = collections.OrderedDict((s, []) for s in STATES + ["race"])
     for x in inputs:
         by[x["st"]].append(x)
     out = []
-    for s in STATES:
+    for s in STATES + ["race"]:
         rng.shuffle(by[s])
         out += by[s]
     # last of all: the session deletes its own account
@@ -429,6 +469,7 @@ def run(ctx):
 
     # ---- verdict by TLC (one run per value of the Validators constant of the model)
     KEEP = ("op", "i", "src", "m", "dem", "stage", "rid", "pre", "fr", "alive", "panic", "confirmed", "hung", "by")
+    KEEPR = ("op", "i", "src", "alive", "panic", "hung", "arid", "afr", "brids", "bfr")
     groups = collections.OrderedDict()
     for r in recs:
         groups.setdefault("validators" in r["cfg"], []).append(r)
@@ -440,7 +481,7 @@ def run(ctx):
     first = True
     for val, rs in groups.items():
         full = rs + (prev if first else [])
-        slim = [{k: r[k] for k in KEEP} for r in rs] + (pv if first else [])
+        slim = [{k: r[k] for k in (KEEPR if r["op"] == "race" else KEEP)} for r in rs] + (pv if first else [])
         first = False
         vlib.write_ndjson(os.path.join(ctx.specdir, "c13_vectors.ndjson"), slim)
         c = {"Validators": "TRUE" if val else "FALSE", "TrackTok": "TRUE"}
@@ -453,7 +494,11 @@ def run(ctx):
             v = full[k - 1]
             for mon in mons:
                 nfail += 1
-                if v["op"] == "preview":
+                if v["op"] == "race":
+                    ctx.fail(mon, {"sequence": v["input"], "case": v["case"], "b": v["bkind"], "config": v["cfg"], "parked": v["parked"], "a_id": v["arid"],
+                                   "a_frames": v["afr"], "b_ids": v["brids"], "b_frames": v["bfr"], "panic": v.get("panicv", "")},
+                             site=v["site"] or "none", input_class=v["cls"], state="race", config=v["cfg"])
+                elif v["op"] == "preview":
                     ctx.fail(mon, {"content_class": v["cls"], "panic": v.get("panicv"), "err": v.get("err")}, site=v["site"] or "none", input_class=v["cls"], config="preview")
                 else:
                     ctx.fail(mon, {"input": v["input"], "state": v["st"], "config": v["cfg"], "codes": [f["code"] for f in v["fr"]], "ids": [f["id"] for f in v["fr"]],
@@ -474,17 +519,36 @@ def run(ctx):
         with open(os.environ["VERIF_C13_KEEP"], "w") as fh:
             json.dump(ctx.failures, fh, default=str)
 
-    answered = sum(1 for r in recs if r["fr"])
-    bys = sum(1 for r in recs if r["by"]["done"])
-    dist = len({(r["cls"], r["st"], tuple(sorted(f["code"] for f in r["fr"]))) for r in recs})
+    races = [r for r in recs if r["op"] == "race"]
+    vlib.log("interleavings: %d (A's {sub} parked inside topicInit in %d); replies to B by case/kind: %s" % (
+        len(races), sum(1 for r in races if r["parked"]),
+        dict(collections.Counter("%s:%s" % (r["case"], ",".join(str(f["code"]) for f in r["bfr"])) for r in races if r["bkind"] != "all" and r["cfg"] == races[0]["cfg"]))))
+    for cse in ["nogrp", "softdel", "p2pmissing", "load"]:
+        row = {}
+        for r in races:
+            if r["case"] == cse and r["cfg"] == races[0]["cfg"] and r["bkind"] != "all":
+                row[r["bkind"]] = "A:%s B:%s" % (",".join(str(f["code"]) for f in r["afr"]), ",".join(str(f["code"]) for f in r["bfr"]) or "-")
+        vlib.log("  interleaving %-10s %s" % (cse, row))
+    credstat = collections.defaultdict(collections.Counter)
+    for r in recs:
+        if r["op"] == "input" and r["cls"].startswith("cred:"):
+            credstat[(r["cls"], "validators" in r["cfg"])][",".join(str(f["code"]) for f in r["fr"]) or "-"] += 1
+    for (cls, val), c in sorted(credstat.items()):
+        vlib.log("  %-26s validators=%-5s %s" % (cls, val, dict(c)))
+    if races and not any(r["parked"] for r in races):
+        raise vlib.Infra("the interleaving gate never engaged (topicInit made no adapter call?)")
+    recs_in = [r for r in recs if r["op"] != "race"]
+    answered = sum(1 for r in recs_in if r["fr"])
+    bys = sum(1 for r in recs_in if r["by"]["done"])
+    dist = len({(r["cls"], r["st"], tuple(sorted(f["code"] for f in r["fr"]))) for r in recs_in})
     ctx.cov.update({
         "states": r0.distinct + mon_states, "transitions": r0.generated + mon_trans,
         "traces_validated_against_impl": len(recs) + len(prev), "evaluations": len(recs) + len(prev), "distinct_nontrivial": dist,
         "rule": "every one of the %d abstract messages of Session.tla in each of %d session states; mutants of one well-formed message per kind (every field x wrong JSON types / null / boundary strings; %d ill-formed topic names; boundary integers; unknown schemes; attachments; call events); %d byte strings (garbage, every truncation of a valid message, deep nesting); %d Drafty contents published and rendered by the real push payload code; each under %d configurations; non-trivial = distinct (input class, state, reply codes)" % (
             len(universe), len(STATES), len(BADNAMES), sum(1 for x in inputs if x["src"] == "raw"), len(contents), len(configs)),
-        "exhaustive": False, "inputs_per_config": len(inputs), "configs": configs, "by_source": dict(collections.Counter(r["src"] for r in recs)),
+        "exhaustive": False, "inputs_per_config": len(inputs), "configs": configs, "by_source": dict(collections.Counter(r["src"] for r in recs)), "interleavings": len(races), "interleavings_parked": sum(1 for r in races if r["parked"]),
         "answered": answered, "bystander_checks": bys, "child_process_deaths": deaths, "recovered_panic_sites": rsites,
-        "reply_codes": {str(k): v for k, v in sorted(collections.Counter(f["code"] for r in recs for f in r["fr"]).items())},
+        "reply_codes": {str(k): v for k, v in sorted(collections.Counter(f["code"] for r in recs_in for f in r["fr"]).items())},
         "monitor_run": {"module": "Monitor_C13", "vectors": len(recs) + len(prev)},
     })
     ctx.assumptions += [
@@ -493,5 +557,5 @@ def run(ctx):
         "push adapters cannot be configured offline: the World captures receipts with a stub handler, and the real FCM payload renderer (payloadToData -> drafty.PlainText/Preview) is called on the same contents directly",
         "crash-freedom is observed on the explored inputs, not proved",
     ]
-    samples = [{k: r[k] for k in ("cls", "st", "cfg", "input", "fr")} for r in (recs[0], recs[len(recs) // 2], recs[-1])]
+    samples = [{k: r[k] for k in ("cls", "st", "cfg", "input", "fr")} for r in (recs_in[0], recs_in[len(recs_in) // 2], recs_in[-1])]
     return ctx.finish(level="model_checking", samples=samples)
